@@ -1,7 +1,9 @@
 """Registry: property id -> runner(prop, tier, replay) -> exit code."""
 import p_bnf
 import p_ll
+import p_xform
 
 REGISTRY = {}
 REGISTRY.update(p_bnf.REGISTRY)
 REGISTRY.update(p_ll.REGISTRY)
+REGISTRY.update(p_xform.REGISTRY)
